@@ -591,6 +591,10 @@ class E2Sim(object):
             self.settle(0.25)
             if CLK.now - t0 > 1.0:
                 ls = [a for a in self.addrs if self.objs[a]._isLeader()]
+                # (a node that still calls itself leader in a term its peers have left behind is not the leader whose heartbeats
+                # keep links alive: the peers ignore what it sends, and its connections time out and are rebuilt in turn)
+                if len(ls) == 1 and self.objs[ls[0]].raftCurrentTerm < max(self.objs[a].raftCurrentTerm for a in self.addrs):
+                    stable = False
                 if len(ls) != 1 or (lead is not None and ls[0] != lead):
                     stable = False
                 elif lead is None:
